@@ -542,8 +542,8 @@ fn family_patterns(d: usize) -> Vec<Vec<bool>> {
 pub fn c12(tier: Tier) -> i32 {
     let mut report = Report::new("C12", tier, "exploration");
     let thorough = tier == Tier::Thorough;
-    let full_to = if thorough { 18 } else { 16 };
-    let pairs_to = if thorough { 9 } else { 8 };
+    let full_to = if thorough { 20 } else { 16 };
+    let pairs_to = if thorough { 10 } else { 8 };
     let evals = AtomicU64::new(0);
     let vectors = AtomicU64::new(0);
     let pairs = AtomicU64::new(0);
